@@ -140,6 +140,10 @@ def gen_case(rng):
             pass                              # same time again: merged into the saved row
         else:
             t += rng.choice([1, 1, 2, 5])
+    if len(rows) > 2 and rng.random() < 0.15:
+        # rows that reach the emitter late (several engines sharing one emitter, merged data): the views list the
+        # times in the order of the history and keep every value next to its own time
+        rng.shuffle(rows)
     embed = [] if rng.random() < 0.8 else rng.choice([['em'], ['em', 'bed']])
     # queries
     cand = [embed + p for p in schema]
